@@ -25,9 +25,13 @@ L == INSTANCE Layout
 Rec == ndJsonDeserialize(IOEnv.TRACE)
 
 PropSeq == << "C01", "C02", "C03", "C04", "C05", "C06", "C07", "C08", "C09", "C10",
-              "C11", "C12", "C13", "C14", "C15", "C16", "C17", "C18", "C19" >>
-Props == {PropSeq[i] : i \in 1..19}
-PropIdx(x) == CHOOSE i \in 1..19 : PropSeq[i] = x
+              "C11", "C12", "C13", "C14", "C15", "C16", "C17", "C18", "C19",
+              (* behaviour the specification covers beyond the listed properties ("extras": reported in the   *)
+              (* evidence and on stderr, never as a VIOLATION of a listed property)                          *)
+              "X01" >>
+NProps == Len(PropSeq)
+Props == {PropSeq[i] : i \in 1..NProps}
+PropIdx(x) == CHOOSE i \in 1..NProps : PropSeq[i] = x
 
 VARIABLES l,        \* index of the next event
           ctxs,     \* model state: context id -> [addr, mts, vids, eidReq, eidResp, uuid]
@@ -186,8 +190,14 @@ IsAcceptedReq(p, k) == WellFormedK(p, k) /\ IsCtl(p) /\ Rq(p) = 1
 
 Untouched(e) == e.res.resp_len = -1 /\ e.rbuf = << >> /\ e.rtail_diff = << >>
 
+(* "is itself a well-formed packet": the specification's own decoder relation accepts the response, or it   *)
+(* carries a non-Success completion code, or it is one of the response kinds C09 leaves unclaimed           *)
+RespWellFormed(R) ==
+    /\ HdrOk(R) /\ IsCtl(R) /\ Len(R) >= 13 /\ Rq(R) = 0 /\ Bits(R[10], 6, 5) = 0
+    /\ (CcByte(R) # 0 \/ IsUnclaimedResp(R) \/ CtlOk(R))
+
 C12Frame(p, m, R, n, iid) ==
-    /\ n >= 13 /\ Len(R) = n
+    /\ n >= 13 /\ Len(R) = n /\ RespWellFormed(R)
     /\ R[1] = p[7] * 2 /\ R[2] = 15 /\ R[3] = n - 4 /\ R[4] = m.addr * 2 + 1
     /\ R[5] = 1 /\ R[6] = p[7] /\ R[7] = m.addr /\ R[8] \div 16 = 12
     /\ R[9] = 0 /\ R[10] = iid /\ R[11] = Cmd(p)
@@ -222,7 +232,7 @@ ProcessChecks3(e, m, p, r, dc, R, n, pecok, acc, xdevs, panicked) ==
                TRUE, xdevs),
       (* inside the domains of C12, C14 and C15 the request must be answered: a panic is no answer *)
       IF C12Domain(p, m, e, acc)
-      THEN Chk("C12", r.kind = "ok" /\ C12Frame(p, m, R, n, Iid(p)), TRUE,
+      THEN Chk("C12", r.kind = "ok" /\ C12Frame(p, m, R, n, Iid(p)) /\ e.rprobe = << OkLen(n) >>, TRUE,
                IF Iid(p) # 0 /\ r.kind = "ok" /\ C12Frame(p, m, R, n, 0) THEN {"IID_ZERO"} ELSE {})
       ELSE Skip("C12"),
       Chk("C13",
@@ -244,6 +254,14 @@ ProcessChecks3(e, m, p, r, dc, R, n, pecok, acc, xdevs, panicked) ==
       THEN Chk("C15", r.kind = "ok" /\ n >= 13 /\ Len(R) = n /\ SubSeq(R, 12, n - 1) = AnswerBody(p, m, 0), TRUE, {})
       ELSE Skip("C15"),
       IF IsPair(p) /\ ~panicked THEN Chk("C01", PairHolds(p, r), TRUE, xdevs \cup DecDevs(p, r, pecok)) ELSE Skip("C01"),
+      (* X01 (extra): an accepted control request the endpoint cannot answer - reserved / unsupported command,  *)
+      (* unsupported Set Endpoint ID operation, vendor selector beyond the configured sets - changes nothing and *)
+      (* is either not answered or answered with a well-formed, correlated response carrying an error code      *)
+      IF acc /\ ~Answered(p, m) /\ Len(p) <= 255 /\ p[4] \div 2 = p[7] /\ p[7] < 128 /\ m.addr < 128
+      THEN Chk("X01", /\ ~panicked /\ e.post = e.pre
+                      /\ n >= 0 => (C12Frame(p, m, R, n, Iid(p)) /\ R[12] # 0),
+               TRUE, {})
+      ELSE Skip("X01"),
       (* a response written by the processor is a packet the library encodes: C03-C05 bind it too *)
       IF ~panicked /\ n >= 0 /\ acc
       THEN Chk("C03", Len(R) = n /\ n >= 1 /\ PecGood(R), TRUE, {}) ELSE Skip("C03"),
@@ -370,7 +388,7 @@ InitStats == [ first |-> [x \in Props |-> 0],      \* first unexplained failing 
                known |-> [pr \in PairSet |-> [n |-> 0, first |-> 0]] ]
 
 RECURSIVE MaskFrom(_, _)
-MaskFrom(S, i) == IF i > 19 THEN 0 ELSE (IF PropSeq[i] \in S THEN 2^(i - 1) ELSE 0) + MaskFrom(S, i + 1)
+MaskFrom(S, i) == IF i > NProps THEN 0 ELSE (IF PropSeq[i] \in S THEN 2^(i - 1) ELSE 0) + MaskFrom(S, i + 1)
 Mask(S) == MaskFrom(S, 1)
 
 FlushEvery == 500
